@@ -65,6 +65,23 @@ fn enter(kind: &str) -> bool {
         let mine = s.evs[s.cur.min(s.evs.len())..].iter().position(|e| e.0 == t);
         let Some(off) = mine else { return false }; // nothing more scheduled for this thread: it runs freely
         let (ek, ef) = { let e = &s.evs[s.cur + off]; (e.1.clone(), e.2) };
+        if ek == "resume" {
+            // this thread is held inside its window (at whatever it does next) until the schedule reaches its `resume`;
+            // from there on it runs freely
+            if off == 0 && s.holder.is_none() {
+                s.cur += 1;
+                s.log.push(format!("T{t}:resume(at {kind})"));
+                CV.notify_all();
+                continue;
+            }
+            if start.elapsed() > STALL * 3 {
+                s.diverged = Some(format!("stalled: T{t} is held at `{kind}` for its resume; the schedule is at position {} = {:?}", s.cur, s.evs.get(s.cur)));
+                CV.notify_all();
+                return false;
+            }
+            g = CV.wait_timeout(g, Duration::from_millis(100)).unwrap_or_else(|e| e.into_inner()).0;
+            continue;
+        }
         if ek != kind {
             if passable(kind) {
                 return false;
@@ -298,6 +315,7 @@ fn parse_step(s: &str, kinds: &[String]) -> Option<(usize, String, bool)> {
     let _ = kinds;
     match what.as_slice() {
         ["acq", l] => Some((t, format!("acq:{l}"), false)),
+        ["resume"] => Some((t, "resume".into(), false)),
         ["rename", oc, "staging"] => Some((t, "rename:staging".into(), *oc == "err")),
         ["rename", oc, "cas"] => Some((t, "rename:cas".into(), *oc == "err")),
         ["unlink", oc, "cas"] => Some((t, "unlink:cas".into(), *oc == "err")),
